@@ -2,6 +2,7 @@ from propdefs.common import *
 
 PROP = {
     "bin": "c15",
+    "minimize": True,   # harness implements `--only i --keep p0,p1,..` (notes/minimisation.md)
     "coq_targets": ["theories/Cfg/C15Check"],
     "n": {"quick": 600, "thorough": 12000},
     "theorems": ["cfg_inv_preserved", "s_run_inv", "sinv_cfg_inv", "blockify_reachable", "merge_lang", "merge_step_lang", "append_struct", "append_runs_first_then_second", "insert_struct", "rho_fresh_injective", "graph_inv_preserved", "adjacency_agrees", "history_refines", "e_run_refines", "fourmap_cfg_inv", "fourmap_merge_lang"],
